@@ -221,6 +221,7 @@ def judge_simple(name, exp, got, opts, bound, bump, n_dist):
         for seg in e[1]:
             if seg[0] == "Q":
                 bump("quadratic_runs_exact")
+        far = []
         for ecur, eseg, gcur, run in res:
             if run and run[0][0] == "c":
                 continue
@@ -232,10 +233,23 @@ def judge_simple(name, exp, got, opts, bound, bump, n_dist):
                 d = T.cubic_vs_quads(ecur, eseg[1], eseg[2], eseg[3], gcur, run)
                 bump("distance_checked")
                 if d > bound:
-                    violations.append({"mech": "conversion_distance", "detail": {
+                    far.append({"mech": "conversion_distance", "detail": {
                         "glyph": name, "contour": ci, "distance": d, "bound": bound,
                         "cubic": [[float(v) for v in p] for p in (ecur,) + tuple(eseg[1:])],
                         "run": [list(map(list, (s[1], s[2]))) for s in run]}})
+        if far:
+            # the structural alignment is not always unique (an implied on-curve point within
+            # the slack of a cubic's end point just before the real one): the distance is only a
+            # violation if NO structurally valid segmentation keeps every spline within the bound
+            def near(ecur, eseg, gcur, run):
+                return T.cubic_vs_quads(ecur, eseg[1], eseg[2], eseg[3], gcur, run) <= bound
+            ee, gg = list(_variants(e, gs))[how]
+            alt = T.match_contour(ee, gg, allow_dropped=opts["dropImpliedOnCurves"],
+                                  cubic_ok=not opts["allQuadratic"], accept=near)
+            if alt is not None:
+                bump("resegmented_contours")
+            else:
+                violations.extend(far)
     return violations, n_dist
 
 
